@@ -31,6 +31,16 @@ Proof.
   apply T. intros r [<-|[]]. simpl. auto.
 Qed.
 
+Lemma judged_accessor_harmless_pkg : forall a, In a effects -> memN (acc_id a) known_failing = false ->
+  acc_surface a = true -> acc_documented a = false ->
+  forall steps s0, realises (acc_eff a) steps = true ->
+  strip_pkg containers (st_pkg (run steps s0)) = strip_pkg containers (st_pkg s0)
+  /\ map fst (st_pkg (run steps s0)) = map fst (st_pkg s0).
+Proof.
+  intros a Hin Hk Hs Hd steps s0 Hr.
+  destruct (judged_accessor_harmless a Hin Hk Hs Hd steps s0 Hr) as [[H1 H2] _]. auto.
+Qed.
+
 (** recorded findings are real: each is a judged accessor whose predicted effect is Creates *)
 Definition known_real (a : accessor) : bool :=
   negb (memN (acc_id a) known_failing)
